@@ -231,8 +231,8 @@ def run(R):
             fn = repo.func(q)
             for k in calls_in(fn.node):
                 if callee_last(k) in ('expect', 'expect_exact'):
-                    t = [kw.value for kw in k.keywords if kw.arg == 'timeout']
-                    ok = not t or not is_const(t[0], None)
+                    t = call_arg(k, 'timeout', 1)
+                    ok = t is None or not is_const(t, None)
                     c.check(ok, fn, k, 'the wait has a finite timeout (explicit, or the instance default)', witness=norm(k)[:80], kind='ast', tag='bounded:' + norm(k)[:40])
         tp = repo.func('pxssh:pxssh.try_read_prompt')
         gt = tp.cfg
@@ -463,16 +463,19 @@ def check_prompt_fn(c, repo):
     ok = isinstance(lst, ast.List) and [norm(e) for e in lst.elts] == ['self.PROMPT', 'TIMEOUT']
     c.check(ok, f, k, 'prompt() waits for [PROMPT, TIMEOUT]', witness=norm(lst), kind='ast', tag='prompt-list')
     iv = n.ast.targets[0].id
-    t = [x for x in g.nodes if x.kind == 'test' and compare_parts(x.ast) and is_name(compare_parts(x.ast)[0], iv)]
-    c.need(len(t) == 1, 'prompt(): index test not found')
-    cp = compare_parts(t[0].ast)
     tim_idx = [i for i, e in enumerate(lst.elts) if norm(e) == 'TIMEOUT'] if isinstance(lst, ast.List) else []
-    okf = isinstance(cp[1], ast.Eq) and tim_idx and is_const(cp[2], tim_idx[0])
-    fr = [r for r in returns(f) if r in guard_region(g, t[0], 'true')]
-    c.check(bool(okf) and len(fr) == 1 and is_const(fr[0].ast.value, False), f, t[0].ast, 'the TIMEOUT index means False', witness=norm(t[0].ast), kind='alg', tag='prompt-timeout')
-    tr = [r for r in returns(f) if r not in guard_region(g, t[0], 'true')]
+    t = relation_tests(g, 'eq', lambda e: is_name(e, iv), lambda e: isinstance(e, ast.Constant))
+    c.need(len(t) == 1, 'prompt(): index test not found')
+    tn, lab = t[0]
+    rel = relation(tn.ast)
+    okf = bool(tim_idx) and (is_const(rel[2], tim_idx[0]) or is_const(rel[1], tim_idx[0]))
+    reg = guard_region(g, tn, lab)
+    fr = [r for r in returns(f) if r in reg]
+    c.check(bool(okf) and len(fr) == 1 and is_const(fr[0].ast.value, False), f, tn.ast, 'the TIMEOUT index means False', witness=norm(tn.ast), kind='alg', tag='prompt-timeout')
+    tr = [r for r in returns(f) if r not in reg]
     c.check(len(tr) == 1 and is_const(tr[0].ast.value, True), f, tr[0].ast if tr else None, 'a matched prompt means True', kind='ast', tag='prompt-true')
-    c.check(any(kw.arg == 'timeout' and is_name(kw.value, 'timeout') for kw in k.keywords), f, k, 'the caller\'s timeout is forwarded', kind='ast', tag='prompt-timeout-arg')
+    ta = call_arg(k, 'timeout', 1)
+    c.check(ta is not None and is_name(ta, 'timeout'), f, k, 'the caller\'s timeout is forwarded', kind='ast', tag='prompt-timeout-arg')
     # set_unique_prompt
     f = repo.func('pxssh:pxssh.set_unique_prompt')
     g = f.cfg
